@@ -27,7 +27,12 @@ cls("CmdLog", cmds=List[List[Str]])  # ghost: the command lists handed to Connec
 const("LOG", CmdLog)
 cls("Connector", transferBufferSize=Int)
 cls("StreamFlowPath")
-cls("RemoteStreamFlowPath", bases=["StreamFlowPath"], connector=Connector, location=ExecutionLocation, text=Str)
+enum("DataType", PRIMARY=0, SYMBOLIC_LINK=1, INVALID=2)
+cls("Event")
+cls("DataLocation", data_type=Int, path=Str, available=Event)
+cls("DataManager")
+cls("Context", data_manager=DataManager)
+cls("RemoteStreamFlowPath", bases=["StreamFlowPath"], connector=Connector, location=ExecutionLocation, text=Str, context=Context)
 
 
 @extern("RemoteStreamFlowPath.__str__")
@@ -206,3 +211,68 @@ def _(self: RemoteStreamFlowPath, target: Str):
     assigns(LOG.cmds)
     raises(WorkflowExecutionException)
     ensures(ran(old(LOG.cmds), ["ln", "-nf", q(target), q(self.text)]))
+
+
+
+# ---- resolve: the registry first, then `readlink -f` on the quoted path --------------------------------------------------------
+@extern("Event.wait")
+def _(self: Event): ...
+
+
+@extern("DataManager.get_data_locations", ignore_args="all")
+def _(self: DataManager) -> List[DataLocation]: ...
+
+
+@extern("RemoteStreamFlowPath.with_segments", ignore_args="all")
+def _(self: RemoteStreamFlowPath) -> RemoteStreamFlowPath: ...
+
+
+@contract("streamflow/data/remotepath.py", "RemoteStreamFlowPath.resolve")
+def _(self: RemoteStreamFlowPath, strict: Bool = False) -> Opt[RemoteStreamFlowPath]:
+    assigns(LOG.cmds)
+    raises(WorkflowExecutionException)
+    # either a registered primary copy answers, or the location is asked with the path as one quoted word (twice)
+    ensures(ran(old(LOG.cmds), ["test", "-e", q(self.text), "&&", "readlink", "-f", q(self.text)]))
+
+
+# ---- write_text: the file is written by `tee <quoted path>` fed through the connector's stream writer --------------------------------
+cls("Writer")
+cls("Reader")
+
+
+@extern("StreamFlowPath.write_text", final=True, ignore_args="all")
+def _(self: StreamFlowPath) -> Int: ...
+
+
+@extern("Connector.get_stream_writer")
+def _(self: Connector, command: List[Str], location: ExecutionLocation) -> Writer:
+    assigns(LOG.cmds)
+    ensures(LOG.cmds == old(LOG.cmds) + [command])
+
+
+@extern("Writer.__aenter__")
+def _(self: Writer) -> Writer:
+    ensures(result is self)
+
+
+@extern("Writer.write", ignore_args="all")
+def _(self: Writer): ...
+
+
+@extern("io.BytesIO", ignore_args="all")
+def _() -> Reader: ...
+
+
+@extern("Reader.read", ignore_args="all")
+def _(self: Reader) -> Bytes: ...
+
+
+@extern("Reader.close")
+def _(self: Reader): ...
+
+
+@contract("streamflow/data/remotepath.py", "RemoteStreamFlowPath.write_text")
+def _(self: RemoteStreamFlowPath, data: Str) -> Int:
+    assigns(LOG.cmds)
+    raises(WorkflowExecutionException)
+    ensures(ran(old(LOG.cmds), ["tee", q(self.text), ">", "/dev/null"]))
